@@ -51,7 +51,7 @@ ASSUMPTIONS = [
 N_SLOTS = 3
 
 
-EXPECTED_PROBES = ['model_constructed_from_a_distance_file', 'distance_file_of_the_model_rewritten', 'loaded_model_poked_and_compared', 'distance_fn_replaced_through_setter', 'receiver_constructed_with_its_own_distance_file', 'subgraph_poked_between_saves', 'labels_propagated_between_saves', 'non_float64_training_data', 'load_checked', 'load_of_save_made_after_a_failed_save', 'loaded_into_differently_constructed_model', 'matrix_pairs_run', 'original_refitted_after_save', 'original_used_between_saves', 'path_overwritten', 'prediction_raises_consistently', 'refit_raised', 'restart_checked_', 'save_raised_and_original_compared', 'save_returned_normally_although_fault_fired', 'scheduled_fault_did_not_fire', 'second_generation_load', 'successful_save_after_failed_save']
+EXPECTED_PROBES = ['matrix_assigned_to_a_loaded_model', 'model_constructed_from_a_distance_file', 'distance_file_of_the_model_rewritten', 'loaded_model_poked_and_compared', 'distance_fn_replaced_through_setter', 'receiver_constructed_with_its_own_distance_file', 'subgraph_poked_between_saves', 'labels_propagated_between_saves', 'non_float64_training_data', 'load_checked', 'load_of_save_made_after_a_failed_save', 'loaded_into_differently_constructed_model', 'matrix_pairs_run', 'original_refitted_after_save', 'original_used_between_saves', 'path_overwritten', 'prediction_raises_consistently', 'refit_raised', 'restart_checked_', 'save_raised_and_original_compared', 'save_returned_normally_although_fault_fired', 'scheduled_fault_did_not_fire', 'second_generation_load', 'successful_save_after_failed_save']
 
 SLOW_ARMS = ("restart", "matrix")
 
@@ -139,7 +139,7 @@ def gen_case(rng, arm, tier, k=0):
             elif base.get("pre_from_file") and rng.random() < 0.5:
                 ops.append(["rewrite_dfile"])  # the distance file the model was built from changes on disk
             elif gens and rng.random() < 0.3:
-                ops.append(["poke_loaded", rng.randrange(gens), rng.choice(("create_arcs", "destroy_arcs", "calculate_pdf")), rng.randint(1, 4)])
+                ops.append(["poke_loaded", rng.randrange(gens), rng.choice(("create_arcs", "destroy_arcs", "calculate_pdf", "set_pre", "set_pre")), rng.randint(1, 4)])
             elif base["kind"] in ("unsup", "unsup_prop") and rng.random() < 0.4:
                 ops.append(["propagate"])
             else:
@@ -273,14 +273,16 @@ def fresh_model(case, variant, scratch=None):
             return B.semi_mod.SemiSupervisedOPF(distance=metric, pre_computed_distance=pre), True
         if kind == "knn":
             return B.knn_mod.KNNSupervisedOPF(max_k=k, distance=metric, pre_computed_distance=pre), True
-        return B.unsup_mod.UnsupervisedOPF(min_k=1, max_k=k, distance=metric, pre_computed_distance=pre), True
+        lo = 1 + (variant >> 11) % 5
+        return B.unsup_mod.UnsupervisedOPF(min_k=lo, max_k=lo + k, distance=metric, pre_computed_distance=pre), True
     if kind == "supervised":
         return B.supervised_mod.SupervisedOPF(distance=metric), metric != case["metric"]
     if kind == "semi":
         return B.semi_mod.SemiSupervisedOPF(distance=metric), metric != case["metric"]
     if kind == "knn":
         return B.knn_mod.KNNSupervisedOPF(max_k=k, distance=metric), True
-    return B.unsup_mod.UnsupervisedOPF(min_k=1, max_k=k, distance=metric), True
+    lo = 1 + (variant >> 11) % 5  # receivers whose own k range lies above/below the saved one
+    return B.unsup_mod.UnsupervisedOPF(min_k=lo, max_k=lo + k, distance=metric), True
 
 
 def predictions(m, case, rows):
@@ -492,7 +494,13 @@ def run_case(case):
                 for target in (obj, twin):
                     sg = target.subgraph
                     try:
-                        if op[2] == "mark_nodes":
+                        if op[2] == "set_pre":
+                            # a new batch arrives with its own distance matrix: assigned through the setter
+                            cur = target.pre_distances
+                            if cur is None:
+                                raise LookupError("no matrix in use")
+                            target.pre_distances = np.array(cur)[::-1, ::-1].copy() + float(op[3])
+                        elif op[2] == "mark_nodes":
                             sg.mark_nodes(op[3] % len(sg.nodes))
                         elif op[2] == "destroy_arcs":
                             sg.destroy_arcs()
@@ -508,11 +516,23 @@ def run_case(case):
                     raise Stop(violation("loaded-behaves-differently", "subgraph.%s on a loaded model: %s, on the model it was saved from: %s" % (op[2], results[0], results[1]), **facts))
                 # (relevance flags are left out: the loaded object has been used for predictions
                 # since it was loaded, its reference copy has not)
+                if op[2] == "set_pre" and results[0] == "ok":
+                    bump(out.probes, "matrix_assigned_to_a_loaded_model")
                 st_a, st_b = model_state(obj, skip=("relevant",)), model_state(twin, skip=("relevant",))
                 if st_a != st_b:
                     raise Stop(violation("loaded-behaves-differently", "after the same public call subgraph.%s the loaded model's state differs from the saved model's: %s" % (op[2], first_diff(st_b, st_a)), **facts))
                 # the generation now is "snapshot + poke": later checks compare predictions with that
-                loaded[op[1] % len(loaded)] = (obj, Snapshot(twin, snap.depth, snap.after_fault))
+                new_snap = Snapshot(twin, snap.depth, snap.after_fault)
+                loaded[op[1] % len(loaded)] = (obj, new_snap)
+                exp2 = new_snap.expected(case, rows)
+                if exp2 is not None:
+                    try:
+                        got2 = predictions(obj, case, rows)
+                    except Exception as exc:  # noqa: BLE001
+                        lib_call("predict on a loaded model after subgraph/setter call", _reraise, exc)
+                    if got2 != exp2:
+                        diff = [i for i in range(len(exp2)) if got2[i] != exp2[i]]
+                        raise Stop(violation("loaded-behaves-differently", "after %s the loaded model predicts differently from the model it was saved from on pool samples %s" % (op[2], diff[:5]), **facts))
                 bump(out.probes, "loaded_model_poked_and_compared")
                 norm.append(("poke_loaded", op[2]))
             elif kop == "set_fn":
